@@ -77,9 +77,12 @@ class DescriptionCache:
             return None
 
         cache_dict_or_evt = self._cache_dict.get(location, _UNDEF)
-        if isinstance(cache_dict_or_evt, asyncio.Event):
+        while isinstance(cache_dict_or_evt, asyncio.Event):
+            # Another lookup is downloading. Wait for it, then look again: it may
+            # have been cancelled, or the location may have been uncached meanwhile.
             await cache_dict_or_evt.wait()
-        elif cache_dict_or_evt is _UNDEF:
+            cache_dict_or_evt = self._cache_dict.get(location, _UNDEF)
+        if cache_dict_or_evt is _UNDEF:
             evt = self._cache_dict[location] = asyncio.Event()
             try:
                 description_xml = await self.async_get_description_xml(location)
@@ -92,7 +95,11 @@ class DescriptionCache:
                     )
                 else:
                     self._cache_dict[location] = None
-            evt.set()
+            finally:
+                # Never leave an unset event behind (cancellation, parse errors).
+                if self._cache_dict.get(location) is evt:
+                    del self._cache_dict[location]
+                evt.set()
 
         return cast(DescriptionType, self._cache_dict[location])
 
